@@ -270,3 +270,83 @@ def run(driver, seed, cases, backend="Neon", configs=None):
         total["driver_rc"] = total["driver_rc"] or r["driver_rc"]
         total["driver_stderr"] += r["driver_stderr"]
     return total
+
+
+# ---------------------------------------------------------------------------------------------------------------------
+# the generated kernels on the reference backend with L lanes per register (driver request `kernL`, Hand/ModelReg.lean),
+# for lane counts no hardware has; the oracle is plain Python integer arithmetic
+
+KERNELS1 = ["generic_sum", "generic_squared_norm", "generic_max_horizontal", "generic_min_horizontal"]
+KERNELS2 = ["generic_dot_product", "generic_euclidean"]
+KERNELS_M2 = ["generic_add_vector", "generic_sub_vector", "generic_mul_vector", "generic_div_vector", "generic_max_vertical", "generic_min_vertical"]
+KERNELS_M1 = ["generic_add_value", "generic_sub_value", "generic_mul_value", "generic_div_value", "generic_max_value", "generic_min_value"]
+
+
+def _kernel_ref(kernel, w, signed, a, b, v):
+    m = (1 << w) - 1
+    key = (lambda x: _signed(x, w)) if signed else (lambda x: x)
+    lo = (1 << (w - 1)) if signed else 0
+    hi = ((1 << (w - 1)) - 1) if signed else m
+    if kernel == "generic_sum":
+        return [sum(a) & m]
+    if kernel == "generic_squared_norm":
+        return [sum(x * x for x in a) & m]
+    if kernel == "generic_dot_product":
+        return [sum(x * y for x, y in zip(a, b)) & m]
+    if kernel == "generic_euclidean":
+        return [sum(((x - y) & m) ** 2 for x, y in zip(a, b)) & m]
+    if kernel == "generic_max_horizontal":
+        return [max(a, key=key) if a else lo]
+    if kernel == "generic_min_horizontal":
+        return [min(a, key=key) if a else hi]
+    op = kernel.split("_")[1]
+    other = b if kernel.endswith("_vector") or kernel.endswith("_vertical") else [v] * len(a)
+    return [_int_ref(op, w, signed, [x, y]) for x, y in zip(a, other)]
+
+
+def run_kernels(driver, seed, cases, kernels=None, lane_counts=(1, 2, 3, 4, 5, 6, 7, 8, 12, 16)):
+    rnd = random.Random(seed * 7919 + 11)
+    kernels = kernels or (KERNELS1 + KERNELS2 + KERNELS_M2 + KERNELS_M1)
+    lines = ["env 0 0 0 1"]
+    plan = []
+    for L in lane_counts:
+        base = [0, 1, L - 1, L, L + 1, 2 * L + 1, 8 * L - 1, 8 * L, 8 * L + 1, 9 * L + 2, 16 * L + 3]
+        for ty in ("i64", "u8", "i16", "u32"):
+            w, signed = INT_TYPES[ty]
+            m = (1 << w) - 1
+            for kernel in kernels:
+                dims_set = sorted(set(d for d in base if d >= 0)) + [rnd.randrange(0, 17 * L + 4) for _ in range(max(1, cases // 2))]
+                for dims in dims_set:
+                    pool = _pool(ty, rnd)
+                    a = [(rnd.choice(pool) if rnd.random() < 0.5 else (i * 7 + 3) & m) for i in range(dims)]
+                    b = [(rnd.choice(pool) if rnd.random() < 0.5 else (i * 13 + 5) & m) for i in range(dims)]
+                    v = rnd.choice(pool)
+                    if "div" in kernel:
+                        b = [x or 1 for x in b]
+                        v = v or 3
+                    enc = lambda xs: "m:" + (",".join("%x" % x for x in xs) if xs else "-")
+                    if kernel in KERNELS1:
+                        args = [enc(a)]
+                    elif kernel in KERNELS2:
+                        args = [enc(a), enc(b)]
+                    elif kernel in KERNELS_M2:
+                        args = [enc(a), enc(b), enc([0xA5 & m] * dims)]
+                    else:
+                        args = ["v:%x" % v, enc(a), enc([0x5A & m] * dims)]
+                    plan.append((L, ty, kernel, dims, a, b, v, len(lines)))
+                    lines.append("kernL %x %s %s %x %s" % (L, ty, kernel, dims, " ".join(args)))
+    p = subprocess.run([driver], input="\n".join(lines) + "\n", stdout=subprocess.PIPE, stderr=subprocess.PIPE, text=True, timeout=1800)
+    outs = p.stdout.split("\n")
+    violations, hist = [], {}
+    for L, ty, kernel, dims, a, b, v, idx in plan:
+        w, signed = INT_TYPES[ty]
+        hist["L%d/%s" % (L, kernel)] = hist.get("L%d/%s" % (L, kernel), 0) + 1
+        ans = outs[idx] if idx < len(outs) else "<no answer>"
+        want = _kernel_ref(kernel, w, signed, a, b, v)
+        want_s = "ok " + (",".join("%x" % x for x in want) if want else "-")
+        if ans != want_s and len(violations) < 10:
+            violations.append({"kind": "model_vs_oracle", "routine": "modelReg(L=%d) %s %s" % (L, ty, kernel), "target_features": None,
+                               "request": lines[idx][:900], "detail": "the kernel answers %r, expected %r" % (ans[:200], want_s[:200]),
+                               "note": "the generated kernel (from the current source) run by the Lean driver on the reference backend with %d lanes per register "
+                                       "(Hand/ModelReg.lean, proved lane-wise faithful for every L in Thm/ModelReg.lean); dims=%d" % (L, dims)})
+    return {"cases": len(plan), "violations": violations, "histogram": hist, "driver_rc": p.returncode, "driver_stderr": p.stderr[-300:]}
